@@ -9,7 +9,10 @@
 (* imbalance.                                                              *)
 (* ConsistentHash: the hasher is an arbitrary function Req -> 0..HashMax.  *)
 (* Retry: the policy is an arbitrary function (result, attempt) -> BOOLEAN *)
-(* and the backend an arbitrary result sequence.                           *)
+(* and the backend an arbitrary result sequence.  Every attempt is issued   *)
+(* with the caller's context (deadline and trace context) whatever the     *)
+(* clock says about that deadline (`elapsed` is chosen freely and nothing   *)
+(* reads it: the stub's promise does not depend on it).                    *)
 (***************************************************************************)
 EXTENDS Naturals, Integers, Sequences, FiniteSets, TLC
 
@@ -18,9 +21,12 @@ CONSTANTS Threads, Backends, PicksPerThread, SplitCursor,
 
 VARIABLES cursor, count, done, loaded,       \* round robin
           hashf, chpick,                     \* consistent hash: chosen hasher, picks so far (req -> backend)
-          policy, script, attempt, lastres, returned, log   \* retry
+          policy, script, attempt, lastres, returned, log,  \* retry
+          elapsed                            \* retry: the caller's deadline has already passed
 
-vars == <<cursor, count, done, loaded, hashf, chpick, policy, script, attempt, lastres, returned, log>>
+vars == <<cursor, count, done, loaded, hashf, chpick, policy, script, attempt, lastres, returned, log, elapsed>>
+(* the caller's context: its deadline and trace context, as opaque values *)
+CallerCtx == <<"deadline-of-the-caller", "trace-context-of-the-caller">>
 N == Cardinality(Backends)
 BackendAt(i) == i % N
 
@@ -30,7 +36,7 @@ Init ==
   /\ hashf \in [Reqs -> 0..HashMax] /\ chpick = [r \in Reqs |-> -1]
   /\ policy \in [Results \X (1..MaxAttempts) -> BOOLEAN]
   /\ script \in [1..MaxAttempts -> Results]
-  /\ attempt = 0 /\ lastres = "none" /\ returned = "none" /\ log = <<>>
+  /\ attempt = 0 /\ lastres = "none" /\ returned = "none" /\ log = <<>> /\ elapsed \in BOOLEAN
 
 (* ---- RoundRobin *)
 Pick(t) ==
@@ -38,33 +44,33 @@ Pick(t) ==
   /\ count' = [count EXCEPT ![BackendAt(cursor)] = @ + 1]
   /\ cursor' = cursor + 1
   /\ done' = [done EXCEPT ![t] = @ + 1]
-  /\ UNCHANGED <<loaded, hashf, chpick, policy, script, attempt, lastres, returned, log>>
+  /\ UNCHANGED <<loaded, hashf, chpick, policy, script, attempt, lastres, returned, log, elapsed>>
 Load(t) ==
   /\ SplitCursor /\ done[t] < PicksPerThread /\ loaded[t] = -1
   /\ loaded' = [loaded EXCEPT ![t] = cursor]
-  /\ UNCHANGED <<cursor, count, done, hashf, chpick, policy, script, attempt, lastres, returned, log>>
+  /\ UNCHANGED <<cursor, count, done, hashf, chpick, policy, script, attempt, lastres, returned, log, elapsed>>
 Store(t) ==
   /\ SplitCursor /\ loaded[t] # -1
   /\ cursor' = loaded[t] + 1
   /\ count' = [count EXCEPT ![BackendAt(loaded[t])] = @ + 1]
   /\ done' = [done EXCEPT ![t] = @ + 1]
   /\ loaded' = [loaded EXCEPT ![t] = -1]
-  /\ UNCHANGED <<hashf, chpick, policy, script, attempt, lastres, returned, log>>
+  /\ UNCHANGED <<hashf, chpick, policy, script, attempt, lastres, returned, log, elapsed>>
 
 (* ---- ConsistentHash *)
 ChCall(r) ==
   /\ chpick' = [chpick EXCEPT ![r] = hashf[r] % N]
   /\ chpick[r] \in {-1, hashf[r] % N}
-  /\ UNCHANGED <<cursor, count, done, loaded, hashf, policy, script, attempt, lastres, returned, log>>
+  /\ UNCHANGED <<cursor, count, done, loaded, hashf, policy, script, attempt, lastres, returned, log, elapsed>>
 
 (* ---- Retry: `for i in 1.. { result = call(request); if should_retry(&result, i) continue; return result }` *)
 RetryStep ==
   /\ returned = "none" /\ attempt < MaxAttempts
   /\ LET i == attempt + 1 r == script[i] IN
      /\ attempt' = i /\ lastres' = r
-     /\ log' = Append(log, <<i, r>>)
+     /\ log' = Append(log, <<i, r, CallerCtx>>)
      /\ returned' = IF policy[<<r, i>>] /\ i < MaxAttempts THEN "none" ELSE r
-  /\ UNCHANGED <<cursor, count, done, loaded, hashf, chpick, policy, script>>
+  /\ UNCHANGED <<cursor, count, done, loaded, hashf, chpick, policy, script, elapsed>>
 
 Next == (\E t \in Threads : Pick(t) \/ Load(t) \/ Store(t)) \/ (\E r \in Reqs : ChCall(r)) \/ RetryStep
 Spec == Init /\ [][Next]_vars
@@ -74,6 +80,7 @@ Inv_Balance == \A a, b \in 0..(N - 1) : count[a] - count[b] <= 1 /\ count[b] - c
 Inv_Hash == \A r \in Reqs : chpick[r] # -1 => (chpick[r] < N /\ chpick[r] = hashf[r] % N)
 Inv_Retry ==
   /\ \A i \in DOMAIN log : log[i][1] = i /\ log[i][2] = script[i]            \* attempts 1,2,3,... in order
+  /\ \A i \in DOMAIN log : log[i][3] = CallerCtx                             \* each with the caller's context
   /\ \A i \in DOMAIN log : i < Len(log) => policy[<<log[i][2], i>>]          \* every earlier attempt was retried
   /\ returned # "none" => (returned = lastres /\ (~policy[<<lastres, attempt>>] \/ attempt = MaxAttempts))
 =============================================================================
